@@ -6,7 +6,7 @@ d="$1"; wt="$2"
 export CARGO_NET_OFFLINE=true
 cd "$wt" || exit 2
 git reset -q --hard HEAD; git clean -fdq -e target -e Cargo.lock
-demo_path=$(grep -ohE 'flussab(-[a-z0-9]+)?/tests/demo_[a-z0-9_]+\.rs' "$d/README.md" | head -1)
+demo_path=$(grep -ohE 'flussab(-[a-z0-9]+)?/tests/demo[0-9]*_[a-z0-9_]+\.rs' "$d/README.md" | head -1)
 if [ -z "$demo_path" ]; then echo "RESULT $d NO-DEMO-PATH"; exit 1; fi
 crate=$(echo "$demo_path" | cut -d/ -f1); tname=$(basename "$demo_path" .rs)
 if ! git apply "$d/patch.diff" 2>/dev/null; then echo "RESULT $d PATCH-DOES-NOT-APPLY"; exit 1; fi
